@@ -23,7 +23,7 @@ BUFFERS = [16, 24, 32, 64, 100, 120, 128, 248, 255, 256, 512, 108, 236, 44, 492]
 
 RELIABLE_FAULTS = ["req_loss", "rep_loss", "rep_delay", "rep_dup",
                    "retryable_rc", "slow_machine", "partition",
-                   "transient_busy"]
+                   "transient_busy", "rep_batch"]
 
 
 def rigcall(w, allowed, fn, *args, **kwargs):
@@ -114,6 +114,7 @@ class Ctl(object):
         self.w.sim.drain(6 * (self.timeout + 0.3) + 1.0)
         for s in self.net.sockets:
             s.inbox.clear()
+            del s.held[:]
 
     def describe(self):
         return ("n_tries=%d timeout=%g buffer=%d faults=%s"
